@@ -63,6 +63,9 @@ func cigarRefLen(s string) int {
 }
 
 // installBiogo registers models of the biogo/hts/sam API used by pkg/sam.
+// biogo's CigarOpType constants (sam.CigarMatch = 0 ... sam.CigarMismatch = 8), in order.
+const cigarLetters = "MIDNSHP=X"
+
 func installBiogo(ev *eval.Evaluator) {
 	ev.Extern["("+biogo+".CigarOp).Type"] = func(ev *eval.Evaluator, pos token.Pos, recv eval.Value, args []eval.Value) eval.Value {
 		return unref(recv).(eval.Tuple)[0]
@@ -71,10 +74,18 @@ func installBiogo(ev *eval.Evaluator) {
 		return unref(recv).(eval.Tuple)[1]
 	}
 	ev.Extern["("+biogo+".CigarOpType).String"] = func(ev *eval.Evaluator, pos token.Pos, recv eval.Value, args []eval.Value) eval.Value {
-		return unref(recv)
+		code, _ := linConst(unref(recv))
+		if code < 0 || int(code) >= len(cigarLetters) {
+			return eval.S("?")
+		}
+		return eval.S(string(cigarLetters[code]))
 	}
 	ev.Extern["("+biogo+".CigarOpType).Consumes"] = func(ev *eval.Evaluator, pos token.Pos, recv eval.Value, args []eval.Value) eval.Value {
-		op := unref(recv).(eval.Str).Const()
+		code, _ := linConst(unref(recv))
+		op := "?"
+		if code >= 0 && int(code) < len(cigarLetters) {
+			op = string(cigarLetters[code])
+		}
 		q, r := 0, 0
 		switch op {
 		case "M", "=", "X":
@@ -99,7 +110,7 @@ func installBiogo(ev *eval.Evaluator) {
 func mkSamRecord(c *core.Ctx, r samRec) *eval.StructVal {
 	var ops []eval.Value
 	for _, o := range parseCigar(r.Cigar) {
-		ops = append(ops, eval.Tuple{eval.S(string(o.Op)), eval.K(int64(o.Len))})
+		ops = append(ops, eval.Tuple{eval.K(int64(strings.IndexByte(cigarLetters, o.Op))), eval.K(int64(o.Len))})
 	}
 	return &eval.StructVal{F: map[string]eval.Value{
 		"Name":  eval.S(r.Name),
